@@ -4,7 +4,7 @@
 # S = seeded property-breaking changes (demo must fail with the change), N = property-preserving changes (checks must stay quiet)
 k=$1; c=$2; extra=${3:+,$3}; shift; shift; shift
 dir=/tmp/wt7-out/$k/$c
-demo=seed_demo.rs; tag=r7s; [ $k = N ] && { demo=keep_demo.rs; tag=r7n; }
+demo=seed_demo.rs; tag=r7s; [ $k = N ] && { demo=keep_demo.rs; tag=r7n; }; [ $k = S8 ] && { dir=/tmp/wt8-out/$c; tag=r8s; }
 args=""
 for n in 1 2 3; do
   if [ -f $dir/$n/patch.diff ]; then
